@@ -1,4 +1,5 @@
 """C03 - offset/DST/abbreviation for an instant match the TZ data (narrow)."""
+from ..rules_r5 import type_writers
 from ..rules_shape import floor_a, const_agree
 from ..rules_tz import floor_b, parse_order, find_key, in_dst_single, handover
 from ..e5 import run_e5
@@ -10,6 +11,7 @@ def run(ctx, rep):
     prog = ctx.prog("Q")
     in_dst_single(rep, prog)
     handover(rep, prog)
+    type_writers(rep, prog)
     rep.notes.append("Does not decide agreement with tzdata, the binary search, POSIX rule evaluation or fattening.")
     floor_b(rep, prog)
     floor_a(ctx, rep)
